@@ -342,6 +342,11 @@ func ReplayHistory(tw *TraceWriter, id int, h []Action) {
 				})
 				tw.Stats["observations_through_Save"]++
 			}
+			if id%4 == 3 && h[0].Variant == nil && rA.status == "nil" {
+				// and File.GoString (%#v of the File): the same bytes as Render when Render succeeds
+				rA = safely(func() ([]byte, error) { return []byte(fA.GoString()), nil })
+				tw.Stats["observations_through_File_GoString"]++
+			}
 			stop := watchDicts()
 			rB := renderFile(fB)
 			fixupDicts(bB, stop()) // the body as the NoFormat twin's render visited it (Dict first-pass orders)
